@@ -162,6 +162,35 @@ def run(c):
                 else:
                     c.report("presented figures do not re-add under the currency rule: %s (%s)" % bad[0],
                              {"document": r["doc"], "clause": bad[0][0]}, finding_id=fid)
+    # ---- derived documents: RemoveIncludedTaxes re-derives prices and fixed amounts with two more decimals and
+    # recalculates; what it hands back is a document calculated under the currency rule like any other
+    rdocs = []
+    tries = 0
+    while len(rdocs) < (1200 if quick else 40000) and tries < 400000:
+        tries += 1
+        d = g.doc(c03=True, force_rule=cg.CURRENCY)
+        if (d.get("tax") or {}).get("prices_include") and d.get("$schema", "").endswith("/invoice") or \
+           ((d.get("tax") or {}).get("prices_include") and "$schema" not in d):
+            rdocs.append(d)
+    shown = 0
+    for r in cg.run3(rdocs, prefix="c17", op_="rit"):
+        if is_err(r["go"]) or r["go"][0] != b"ok":
+            continue
+        t = r["go"][1]
+        c.count("identities-after-remove-included-taxes", 1, json.dumps(r["doc"], sort_keys=True))
+        bad = identities(r["doc"], t, rounding=q(t[8]) - q(t[7]))     # the residue RemoveIncludedTaxes records is C17's subject
+        if bad and shown < 3:
+            shown += 1
+            def fails(d):
+                x = cg.run3([d], prefix="c17", op_="rit")[0]
+                return not is_err(x["go"]) and x["go"][0] == b"ok" and cg.doc_meta(d)[3] == cg.CURRENCY and \
+                    bool(identities(d, x["go"][1], rounding=q(x["go"][1][8]) - q(x["go"][1][7])))
+            small = cg.shrink_doc(r["doc"], fails)
+            x = cg.run3([small], prefix="c17", op_="rit")[0]
+            bad = identities(small, x["go"][1], rounding=q(x["go"][1][8]) - q(x["go"][1][7]))
+            c.report("after RemoveIncludedTaxes the presented figures do not re-add under the currency rule: %s (%s)" % bad[0],
+                     {"document": small, "operation": "Invoice.RemoveIncludedTaxes (c17 rit)", "implementation": x["go_raw"],
+                      "clause": bad[0][0], "all_failures": bad[:6]})
     c.cov["rule"] = ("invoices under the 'currency' rule (explicit, or by the EL regime default), input variety of C01 with fixed discount, charge and advance "
                      "amounts supplied at the currency's precision, tax-included prices and prices with more decimals than the currency; every identity of the "
                      "statement is recomputed from the implementation's presented figures; distinct = distinct documents inside the 2^52 domain")
@@ -175,6 +204,12 @@ def run(c):
 def replay(path):
     r = json.load(open(path))["replay"]
     build_harness()
+    if r.get("operation"):
+        x = cg.run3([r["document"]], prefix="c17", op_="rit")[0]
+        print("implementation (after RemoveIncludedTaxes):", x["go_raw"])
+        t = x["go"][1]
+        print("failing identities:", identities(r["document"], t, rounding=q(t[8]) - q(t[7])))
+        return 0
     x = cg.run3([r["document"]])[0]
     print("implementation:", x["go_raw"])
     print("model:         ", x["model_raw"])
